@@ -36,7 +36,7 @@ nc=sum(1 for r in rows if r[3].startswith('not claimed'))
 pf=sum(1 for r in rows if r[3].startswith('patch'))
 summary=f"\nTotals over {len(rows)} seeded changes: {caught} caught by a named obligation, {sub} reported because the changed function left the subset, {missed} missed, {nc} for a property that is not claimed, {pf} no longer applicable.\n"
 mut=[]
-for f in ['/verif/work/selftest.log','/verif/work/selftest2.log']:
+for f in (['/verif/work/selftest_all.log'] if os.path.exists('/verif/work/selftest_all.log') and 'selftest:' in open('/verif/work/selftest_all.log').read() else ['/verif/work/selftest.log','/verif/work/selftest2.log']):
     if os.path.exists(f):
         for l in open(f):
             m=re.match(r'(KILLED|WEAK-CONTRACT) (mutants/\S+?)[: ]',l)
